@@ -20,6 +20,33 @@ def nondet(src, dialect, d):
             _nd[key] = "no"
     return _nd[key]
 
+# every optional / list-valued field of the PL and RQ nodes once empty (or at its default) and once not: what a serde
+# attribute (skip_serializing_if, default) decides
+EDGE = [
+    "let top = n:5 rel -> (rel | take n)\nfrom t | top n:3",                       # a call whose arguments are all named
+    "let top = n:5 rel -> (rel | take n)\nfrom t | top",                           # ... and none at all (bare reference through the pipe)
+    "let two = -> 2\nfrom t | derive {v = two}",                                   # a function without parameters
+    "let f = a b:1 c:2 -> a + b + c\nfrom t | derive {v = f k c:3, w = f k}",
+    "let f = func a <int> -> <int> a + 1\nfrom t | derive {v = f k}",
+    "from t | select {}", "from t | derive {}", "from t | derive {v = []}", "from t | derive {v = [1]}", "from t | derive {v = case []}",
+    "from t | derive {v = (a | in ..)}", "from t | derive {v = (a | in 1..)}", "from t | derive {v = (a | in ..2)}",
+    "from t | derive {v = f\"plain\"}", "from t | derive {v = f\"\"}", "from t | derive {v = s\"\"}", "from t | derive {v = \"\"}", "from t | derive {v = r\"\"}",
+    "from t | derive {v = null, w = true, x = 1, y = 1.5, z = 'q', d = @2020-01-01, e = @10:00, g = @2020-01-01T10:00:00, h = 2days}",
+    "module m {\n}\nfrom t", "module m {\n  module n {\n    let c = 1\n  }\n}\nfrom t | derive {v = m.n.c}",
+    "module m {\n  let c = 1\n}\nimport m.c\nfrom t | derive {v = c}", "module m {\n  let c = 1\n}\nimport d = m.c\nfrom t | derive {v = d}",
+    "type small = int\nfrom t", "let c <int> = 1\nfrom t | derive {v = c}", "let rel <[{k = int}]> = (from t | select {k})\nfrom rel",
+    "prql target:sql.postgres\nfrom t", "prql version:\"0\"\nfrom t", "prql target:sql.sqlite version:\"0\"\nfrom t | take 1",
+    "@{binding_strength=11}\nlet plus = a b -> a + b\nfrom t | derive {v = plus 1 2}", "#! doc\nlet c = 1\nfrom t | derive {v = c}",
+    "from t | derive {total = sum a}", "from t | sort k | derive {r = sum a}", "from t | group k (derive {r = sum a})",
+    "from t | window rows:-1..1 (derive {r = sum a})", "from t | window range:..0 (sort k | derive {r = sum a})", "from t | window expanding:true (derive {r = sum a})",
+    "from t | take 3..", "from t | take ..3", "from t | take 2..3", "from t | sort {}", "from t | aggregate {n = count this}", "from t | group {} (aggregate {n = count this})",
+    "from t | join side:full u (==k)", "from t | join u true", "from t | append u", "from t | select {k} | loop (filter k < 3 | select {k = k + 1})",
+    "from []", "from [{a = 1}]", "from [{a = null, b = 'x'}]", "from s\"SELECT 1 AS a\"", "from (read_csv 'x.csv')", "from (from_text format:json '[]')",
+    "from t | derive {v = a ?? null, w = -a, x = !true, y = a == null}", "from t | filter k > $1 | take 2",
+    "let t2 = (from t | take 1)\nfrom t2 | join t2b = t2 (==k)", "from t\ninto res\nfrom res",
+    "from t | derive {v = 1e999}", "from t | derive {v = -1e999}", "from t | filter a < 1e308",
+]
+
 def check(tier):
     rep = Report("C15", tier)
     d = workdir("C15")
@@ -33,6 +60,7 @@ def check(tier):
     dbset = os.path.join(ROOT, "corpus", "dbs_quick.json")
     srcs = [{"id": f"s{i}", "src": s} for i, s in enumerate(corpus.SYNTAX)]
     srcs += [{"id": f"h{i}", "src": s} for i, s in enumerate(c16.HAND)]
+    srcs += [{"id": f"ef{i}", "src": s} for i, s in enumerate(EDGE)]
     srcs += [{"id": "q-" + n, "src": s} for n, s in corpus.repo_queries()]
     book = corpus.book_snippets()
     srcs += [{"id": "b-" + n, "src": s} for n, _, s in (book if tier == "thorough" else rnd.sample(book, min(len(book), 80)))]
